@@ -32,6 +32,7 @@ Trace records (tuples, first element is the kind):
 from __future__ import annotations
 
 import asyncio
+import concurrent.futures
 import math
 
 from . import env as E
@@ -126,6 +127,14 @@ def _step_in_thread(coro):
     if kind == "exc":
         raise val
     return val
+
+
+class OpFuturesCancelled(OpError, concurrent.futures.CancelledError):
+    """concurrent.futures.CancelledError is an ordinary Exception (unlike asyncio's)."""
+
+
+def _raise_from(exc, cause):
+    raise exc from cause
 
 
 class OpRuntimeError(OpError, RuntimeError):
@@ -278,6 +287,9 @@ DEFAULT_CFG = {
     "strat_obj": False,
     "rec_durs": [0],             # ticks spent inside the strategy object's record_failure (menu)
     "abort_kind": "method",      # "falsy-object": abort_if is a callable object whose bool() is False
+    "abort_truthy": False,       # abort_if answers 7 (truthy, but not the literal True) when it aborts
+    "strat_falsy": False,        # context-style strategies are callable objects whose bool() is False
+    "inject_start": False,       # async, hand-driven: the coroutine may be closed before its first step
     "thread_hop": False,         # async, hand-driven: the first step of the coroutine runs on another
                                  # OS thread than the rest (a coroutine is not pinned to a thread)
     "callable_kind": "plain",    # "falsy": handler / before_sleep / sleeper are callable objects whose
@@ -326,6 +338,8 @@ class World:
         self.susp_after_throw = False
         self._last_op_exc = None
         self._abort_flag = False
+        self._cb_ids = set()
+        self._cb_keep = []
         self._bs_running = False
         self._in_async_op = False
         self._none_class = None
@@ -438,6 +452,8 @@ class World:
                     E.advance(step[1] * TAU)
                 elif step[0] == "allow":
                     CircuitBreaker.allow(self.breaker)
+                elif step[0] == "cancel":
+                    CircuitBreaker.record_cancel(self.breaker)
 
     def make_breaker(self, br):
         world = self
@@ -476,7 +492,15 @@ class World:
             kw["trip_on"] = {KL[k] for k in br["trip_on"]}
         if br.get("class_thresholds"):
             kw["class_thresholds"] = {KL[k]: v for k, v in br["class_thresholds"].items()}
-        b = SpyBreaker(**kw)
+        if br.get("falsy"):
+            class FalsySpyBreaker(SpyBreaker):
+                """A breaker subclass with a truth value ("is the circuit closed and idle?")."""
+
+                def __bool__(self):
+                    return False
+            b = FalsySpyBreaker(**kw)
+        else:
+            b = SpyBreaker(**kw)
         # the caller mutates its own containers afterwards; the breaker must not notice
         for k in list(kw.get("class_thresholds") or ()):
             kw["class_thresholds"][k] = 1
@@ -580,6 +604,16 @@ class World:
     def _wrap_strategy(self, name, fn):
         """Optionally present the strategy as an object with the record_success /
         record_failure protocol that stateful strategies (adaptive) rely on."""
+        if self.cfg["strat_falsy"]:
+            class EmptySchedule:
+                """A context-style strategy object that is falsy (``len() == 0``)."""
+
+                def __len__(self):
+                    return 0
+
+                def __call__(self, ctx):
+                    return fn(ctx)
+            return EmptySchedule()
         if not self.cfg["strat_obj"]:
             return fn
         world = self
@@ -606,6 +640,8 @@ class World:
         else:
             a = self.ch.choose("poll", 2) == 1
         self.trace.append(("poll", a))
+        if a and self.cfg["abort_truthy"]:
+            return 7          # e.g. len(shutdown_requests): truthy, not the literal True
         return a
 
     def maybe_flip(self, where):
@@ -727,6 +763,28 @@ class World:
         return self._falsy(sleeper)
 
     def _falsy(self, fn):
+        if self.cfg["callable_kind"] == "stateful":
+            world = self
+            ids = self._cb_ids
+
+            class Scheduler:
+                """A stateful callable object (its own counters): the library must call *this*
+                object, not a copy of it."""
+
+                def __init__(self):
+                    self.calls = 0
+                    self.history = []
+
+                def __call__(self, *a, **kw):
+                    self.calls += 1
+                    self.history.append(len(a))
+                    if id(self) not in ids:
+                        world.trace.append(("copied_callback", getattr(fn, "__name__", "?")))
+                    return fn(*a, **kw)
+            obj = Scheduler()
+            ids.add(id(obj))
+            self._cb_keep.append(obj)
+            return obj
         if self.cfg["callable_kind"] != "falsy":
             return fn
 
@@ -846,6 +904,30 @@ class World:
                 raise CircuitOpenError("open")
             except CircuitOpenError:
                 _raise_here(exc)
+        if kind == "xq":
+            # raise X from Y: the classifier calls X `rest`, the cause would be TRANSIENT
+            exc = OpError(f"op{n}:{rest}")
+            exc.spec = (rest, None)
+            cause = OpError("root cause")
+            cause.spec = ("T", None)
+            cause.status = STATUS_FOR.get("T")
+            self._rec_op(("op", n, "x:" + rest, t0, t1, self.reg(exc)))
+            _raise_from(exc, cause)
+        if kind == "xcf":
+            exc = OpFuturesCancelled(f"op{n}:{rest}")
+            exc.spec = (rest, None)
+            code = STATUS_FOR.get(rest)
+            if code is not None:
+                exc.status = code
+            self._rec_op(("op", n, "x:" + rest, t0, t1, self.reg(exc)))
+            _raise_here(exc)
+        if kind == "xsc":
+            # an errno-style string code and no numeric status (the stub classifier says `rest`)
+            exc = OpError(f"op{n}:{rest}")
+            exc.spec = (rest, None)
+            exc.code = "ECONNRESET"
+            self._rec_op(("op", n, "x:" + rest, t0, t1, self.reg(exc)))
+            _raise_here(exc)
         if kind == "xR":
             exc = OpRuntimeError(f"op{n}:{rest}")
             exc.spec = (rest, None)
@@ -1137,12 +1219,19 @@ class World:
         try:
             if method == "deco":
                 r = obj()
-            elif method == "context":
+            elif method in ("context", "contextset"):
                 kw = self._call_kwargs(False)
-                if is_async:
-                    r = self._async_context(obj, kw, op)
+                if method == "contextset":
+                    # a long-lived context object whose options are assigned afterwards
+                    ctxobj = obj.context()
+                    for k, val in kw.items():
+                        setattr(ctxobj, k, val)
                 else:
-                    with obj.context(**kw) as call:
+                    ctxobj = obj.context(**kw)
+                if is_async:
+                    r = self._async_context(ctxobj, op)
+                else:
+                    with ctxobj as call:
                         r = call(op)
             else:
                 kw = self._call_kwargs(execute)
@@ -1169,15 +1258,20 @@ class World:
         self.trace.append(("end", "ret", self.ident(r)))
         return self.trace[-1]
 
-    async def _async_context_coro(self, obj, kw, op):
-        async with obj.context(**kw) as call:
+    async def _async_context_coro(self, ctxobj, op):
+        async with ctxobj as call:
             return await call(op)
 
-    def _async_context(self, obj, kw, op):
-        return self._async_context_coro(obj, kw, op)
+    def _async_context(self, ctxobj, op):
+        return self._async_context_coro(ctxobj, op)
 
     def drive(self, coro):
         inject = self.cfg["inject"]
+        if self.cfg["inject_start"] and self.ch.choose("start", 2):
+            # the task is cancelled before it ever starts: the coroutine object is closed unrun
+            self.trace.append(("susp", "not-started", "close"))
+            coro.close()
+            return ("closed",)
         try:
             if self.cfg["thread_hop"]:
                 tok = _step_in_thread(coro)
